@@ -56,6 +56,8 @@ PURE_CALLS = {
     "os.path.isdir": [(["apath"], "bool", "py_os_path_isdir", True)],
     "os.path.isfile": [(["apath"], "bool", "py_os_path_isfile", True)],
     "os.path.exists": [(["apath"], "bool", "py_os_path_exists", True)],
+    # does not follow symbolic links: answered by the field pw_links of the world (assumption A12)
+    "os.path.islink": [(["apath"], "bool", "py_os_path_islink", True)],
     "os.path.basename": [(["apath"], "str", "py_os_path_basename", True)],
     "os.path.normpath": [(["apath"], "apath", "py_os_path_normpath", False)],
     "os.path.relpath": [(["apath", "apath"], "rpath", "py_os_path_relpath", False)],
@@ -1186,9 +1188,12 @@ HEADER = """(* GENERATED by translators/pywalk2coq.py from {src} -- do not edit;
                                     handed out as ds: the variable ds while the name has only been mutated
                                     in place; the first REBINDING ds = E (only allowed directly in the loop
                                     body) is rendered  let ds_os_walk := ds in let ds := E in  and OBJ is
-                                    ds_os_walk from then on (os.walk does not see the rebound name)
+                                    ds_os_walk from then on (os.walk does not see the rebound name);
+                                    fl and the symbolic links of the world decide which of the names left
+                                    in OBJ os.walk descends into (assumption A12 of PyWalkSem.v)
      paths                          abspath/isdir/... : apath (anchored) and rpath (relative); a str used as a
                                     path argument is py_rpath_of_name, an rpath used as a str py_rpath_text
+     os.path.islink(P)              py_os_path_islink world P : the symbolic links of the world (pw_links, A12)
      os.path.abspath(P)  P a path   py_os_path_abspath_of P : npath, a normalised absolute path; only those
                                     have == (py_npath_eq world a b, decided by where the world says the output
                                     directory is); a == b with b Optional: py_eq_optional (py_npath_eq world) a b
